@@ -299,6 +299,28 @@ def main(argv=None):
     return rc
 
 
+def _f1_short(cfg, sz):
+    """some level's even-extended length is smaller than the filter length"""
+    J = sz.get('J', 1)
+    pairs = []
+    if cfg.get('dim') == 1 or 'N' in sz and 'H' not in sz:
+        pairs.append((sz.get('N', sz.get('W')), 2 * sz.get('Lc2', sz.get('L2', 1))))
+    else:
+        lr = sz.get('Lr2') if cfg.get('waveform') == 'tuple4' else sz.get('Lc2', sz.get('L2', 1))
+        pairs += [(sz.get('H'), 2 * sz.get('Lc2', sz.get('L2', 1))), (sz.get('W'), 2 * (lr or 1))]
+    for n, L in pairs:
+        if n is None:
+            continue
+        for j in range(J):
+            if n + n % 2 < L:
+                return True
+            n = (n + 1) // 2
+    return False
+
+
+PREDS = {'f1_short': _f1_short}
+
+
 def _in_known(fl, findings):
     for f in findings.values():
         m = f.get('bounded_match')
@@ -310,11 +332,8 @@ def _in_known(fl, findings):
         for k, v in m.get('cfg', {}).items():
             if fl['cfg'].get(k) not in (v if isinstance(v, list) else [v]):
                 ok = False
-        if ok and m.get('expr'):
-            try:
-                ok = bool(eval(m['expr'], {}, dict(fl['sizes'])))
-            except Exception:
-                ok = False
+        if ok and m.get('pred'):
+            ok = PREDS[m['pred']](fl['cfg'], fl['sizes'])
         if ok:
             return True
     return False
